@@ -113,7 +113,8 @@ func init() {
 		g.assumeIf(reach, fmt.Sprintf("(is-bSlice (ibox %s))", args[0]))
 		cond := fmt.Sprintf("(or (<= (sllen %s) 1) (= (sref %s) 0) (>= (sref %s) %s))", s, s, s, g.entry.Next)
 		if g.modset != nil {
-			cond = fmt.Sprintf("(or (<= (sllen %s) 1) (= (sref %s) 0) (>= (sref %s) %s) %s)", s, s, s, g.entry.Next, g.modset(fmt.Sprintf("(sref %s)", s)))
+			// element size unknown here (the slice is boxed in an interface): require the whole object to be a target
+			cond = fmt.Sprintf("(or (<= (sllen %s) 1) (= (sref %s) 0) (>= (sref %s) %s) %s)", s, s, s, g.entry.Next, g.modsetR(fmt.Sprintf("(sref %s)", s), "", ""))
 		}
 		if g.checkFrame {
 			g.oblige("frame", a.srcDetail(instr), reach, cond, a.pos(instr.Pos()), "sort.Slice reorders its argument in place: it must be memory allocated during the call or listed in modifies")
